@@ -82,6 +82,23 @@ def tus(tier, seed):
             body += '  xbin<%d, %s, %d, %s>(rng);\n' % (dl, CT[nl], dr, CT[nr])
         body += '}\n'
         res.append(dict(name='C05_wide_%d' % (i // 2), src=body, compiler='g++'))
+    # `/` and `%` carried out in multi-word storage (operand type of 128+ digits): divisors of 1, 2, 3, ... limbs of
+    # 8/16/32/64 bits, every sign combination, dividend smaller than / equal to / a multiple of the divisor, Knuth
+    # add-back operands at several divisor lengths and quotient positions, and the identity (n/d)*d + n%d == n
+    xd = [(150, 'i32', 150, 'i32'), (200, 'i32', 100, 'i32'), (100, 'i32', 200, 'i32'), (160, 'u32', 160, 'u32'), (256, 'i64', 192, 'i64'),
+          (136, 'i8', 136, 'u8'), (140, 'i16', 130, 'i16'), (320, 'i32', 320, 'u32'), (128, 'i32', 128, 'i32'), (127, 'i32', 128, 'u32'),
+          (300, 'u64', 260, 'i64'), (200, 'u16', 144, 'u16')]
+    rnd4 = random.Random(seed * 7919 + 11)
+    for _ in range(2 if tier == 'quick' else 16):
+        w = rnd4.choice([8, 16, 32, 32, 64])
+        dl, dr = rnd4.choice([128, 129, 150, 159, 160, 191, 192, 200, 224, 255, 256, 257, 300]), rnd4.choice([40, 64, 96, 127, 128, 130, 160, 191, 192, 200, 256, 288])
+        if w == 8:
+            dl, dr = min(dl, 200), min(dr, 160)
+        xd.append((dl, rnd4.choice('iu') + str(w), dr, rnd4.choice('iu') + str(w)))
+    for i, (dl, nl, dr, nr) in enumerate(xd):
+        body = '#include "%s"\nint main(){ install(); Rng rng(seed_from_env()+9500+%d);\n' % (xhdr, i)
+        body += '  xdiv<%d, %s, %d, %s>(rng);\n}\n' % (dl, CT[nl], dr, CT[nr])
+        res.append(dict(name='C05_widediv_%d' % i, src=body, compiler='g++'))
     # elastic_integer combined directly with built-in integers (from_value of a built-in operand)
     mixed = [(8, 'u32', 'i32'), (8, 'u8', 'i8'), (20, 'i32', 'u32'), (40, 'u64', 'i64'), (10, 'i16', 'u8'), (31, 'i32', 'i64'), (5, 'u16', 'i32')]
     rnd2 = random.Random(seed * 31 + 7)
@@ -97,4 +114,7 @@ def tus(tier, seed):
 
 
 RULE = ("per compiled (LhsDigits, LhsNarrowest, RhsDigits, RhsNarrowest): all operand values when digits <= 6, otherwise the boundary "
-        "lattice of the declared range plus seeded random values; non-trivial = operands inside their declared ranges and divisor non-zero")
+        "lattice of the declared range plus seeded random values; / and % in multi-word storage (8/16/32/64-bit limbs): divisors of 1, 2, 3, ... limbs "
+        "(top limb 1 / ~0 / 100.. / 011.. / random), dividends q*d, q*d-1, q*d+(d-1), d-1, d, d+1, 2d-1, shorter than the divisor, Knuth add-back "
+        "operands at every divisor length and quotient position that fits, all four sign combinations, plus (n/d)*d + n%d == n; "
+        "non-trivial = operands inside their declared ranges and divisor non-zero")
